@@ -67,7 +67,10 @@ func genCase(t *rapid.T) Case {
 	ns := rapid.IntRange(1, 3).Draw(t, "nschemas")
 	var docs []map[string]any
 	for i := 0; i < ns; i++ {
-		d := gen.Schema(t, gen.SchemaOpts{MaxDepth: 3, Formats: reg.Names})
+		// half of the schemas carry defaults on their properties and are biased towards objects: the bookkeeping of
+		// "required but created from a default" is state an object validator must not carry from one use to the next
+		withDefaults := rapid.Bool().Draw(t, "withdefaults")
+		d := gen.Schema(t, gen.SchemaOpts{MaxDepth: 3, Formats: reg.Names, Defaults: withDefaults, ObjectBias: withDefaults})
 		docs = append(docs, d)
 		c.Schemas = append(c.Schemas, gen.Text(d))
 	}
